@@ -338,7 +338,8 @@ def check(case, ctx):
                 else:
                     want = log_star_ref(x)
                     if want > mx / 16: ok = True
-                    else: ok = abs(got - want) <= 16 * eps * abs(want) + 1e-300 * 0 + (0 if want else eps)
+                    # results below the smallest normal number are subject to underflow (stated assumption): absolute slack `tiny`
+                    else: ok = abs(got - want) <= 16 * eps * abs(want) + tiny + (0 if want else eps)
                     if not math.isfinite(want): ok = got == want
             ctx.require(ok, 'star-not-least-solution', f'star({x}) = {got}, least solution of y=1+xy is {want}', law='star')
 
